@@ -43,6 +43,8 @@ def asm_run(sc_id, f, sched, seed, big):
             # tlslite reads ahead into its BufferedSocket: after a read delivered something the caller has to
             # call inReadEvent again until the machine reports "wants read" (drain discipline of every TLS stack)
             self.drain = True
+            self.same = 0
+            self.last_sig = None
 
         def outConnectEvent(self):
             self.drain = True
@@ -78,10 +80,23 @@ def asm_run(sc_id, f, sched, seed, big):
                 CTX.cur = "-"
             self.log.append({"ev": "ASM", "call": what, "op": self.active(),
                              "res": {None: "none", 0: "r", 1: "w"}.get(self.result, "bad:%r" % (self.result,)), "exc": exc})
+            # a machine that keeps being called without moving a byte and without changing state is spinning
+            sig = (what, self.active(), self.result, self.sock.activity, len(self.events), len(self.data))
+            self.same = self.same + 1 if sig == self.last_sig else 0
+            self.last_sig = sig
+            if self.same > 300 and not self.failed:
+                self.failed = "no-progress: %s repeated without effect" % what
+                self.events.append("failed:no-progress")
 
     cgen, sgen = sc.gens()
-    mc = M(p.c, p.csock, "c", [("write", msg1), ("expect", len(msg2)), ("write", b"tail"), ("close",)])
-    ms = M(p.s, p.ssock, "s", [("expect", len(msg1)), ("write", msg2), ("expect", len(msg1) + 4), ("expect_eof",)])
+    cscript = [("write", msg1), ("expect", len(msg2)), ("write", b"tail"), ("close",)]
+    sscript = [("expect", len(msg1)), ("write", msg2), ("expect", len(msg1) + 4), ("expect_eof",)]
+    if f["ver"] == 4:
+        # TLS 1.3: a KeyUpdate(update_requested) from the client makes the server WRITE (its own KeyUpdate) while it
+        # is in a read operation; run through the machine's generic generator slot
+        cscript = [("write", msg1), ("ku",), ("expect", len(msg2)), ("write", b"tail"), ("close",)]
+    mc = M(p.c, p.csock, "c", cscript)
+    ms = M(p.s, p.ssock, "s", sscript)
     mc.call("set:hs", mc.setHandshakeOp, cgen)
     ms.call("set:hs", ms.setHandshakeOp, sgen)
     steps = 0
@@ -105,6 +120,13 @@ def asm_run(sc_id, f, sched, seed, big):
                 if nxt[0] == "write":
                     m.script.pop(0)
                     m.call("set:write", m.setWriteOp, nxt[1])
+                    progressed = True
+                elif nxt[0] == "ku":
+                    from tlslite.constants import KeyUpdateMessageType
+                    m.script.pop(0)
+                    m.nconnect_extra = getattr(m, "nconnect_extra", 0) + 1
+                    m.call("set:hs", m.setHandshakeOp,
+                           m.tlsConnection.send_keyupdate_request(KeyUpdateMessageType.update_requested))
                     progressed = True
                 elif nxt[0] == "close":
                     m.script.pop(0)
